@@ -242,6 +242,7 @@ class _InlineFunction(XPathFunction):
                     self.parser.next_token.unexpected(')')
 
             self.parser.advance(')')
+            self.nargs = len(self.varnames)  # the arity of the function item
 
         elif self.parser.next_token.symbol == '*':
             self.label = 'function test'
